@@ -151,14 +151,24 @@ MapLawsAssoc ==
 ----------------------------------------------------------------------------
 (* defective definitions for the vacuity guards *)
 SplitStringDropTrailing(q, d) ==      \* DESIGN 7: drop the trailing piece
-  LET full == SplitString(q, d) IN IF Len(full) > 1 /\ full[Len(full)] = <<>> THEN Prefix(full, Len(full) - 1) ELSE full
+  LET Pos == SortedSeqOf({i \in Indices(q) : q[i] = d})
+      k == Len(Pos)
+      lo(j) == IF j = 1 THEN 1 ELSE Pos[j - 1] + 1
+      hi(j) == IF j = k + 1 THEN Len(q) ELSE Pos[j] - 1
+      full == [j \in 1..(k + 1) |-> SubSeq(q, lo(j), hi(j))]
+  IN IF Len(full) > 1 /\ full[Len(full)] = <<>> THEN Prefix(full, Len(full) - 1) ELSE full
 BinarySearchNonSingular(q, x) ==      \* DESIGN 7: accept non-singular ranges
   IF Count(q, x) >= 1 THEN Some(LowerBound(q, x)) ELSE None
 ReverseButLast(q) == IF Len(q) <= 2 THEN q ELSE <<q[Len(q)]>> \o SubSeq(q, 2, Len(q) - 1) \o <<q[1]>>
 RemoveFirstOnly(q, x) ==
   LET i == FirstIdx(q, LAMBDA e : e = x) IN IF i <= Len(q) THEN SubSeq(q, 1, i - 1) \o SubSeq(q, i + 1, Len(q)) ELSE q
 UniqueOnePass(q) == SubAt(q, {i \in Indices(q) : i = 1 \/ q[i - 1] # q[i] \/ (i > 2 /\ q[i - 2] = q[i])})
-FoldBreakCallsLate(g(_, _), st0, q) == MinOf(FoldBreakCalls(g, st0, q) + 1, Len(q))   \* one call too many
+FoldBreakCallsLate(g(_, _), st0, q) ==      \* one call too many
+  LET Fs == FoldBreakStates(g, st0, q)
+      x == IF \E i \in Indices(q) : Fs[i][1]
+           THEN CHOOSE i \in Indices(q) : Fs[i][1] /\ \A j \in 1..(i - 1) : ~Fs[j][1]
+           ELSE Len(q)
+  IN MinOf(x + 1, Len(q))
 SetUnionConcat(x, y) == x \o SetDifference(y, x)
 FindOptLast(q, x) ==
   IF Contains(q, x) THEN Some((CHOOSE i \in Indices(q) : q[i] = x /\ \A j \in (i + 1)..Len(q) : q[j] # x) - 1) ELSE None
@@ -166,5 +176,8 @@ JoinMapRightBiased(cs) ==
   LET ks == UNION {Keys(cs[i]) : i \in Indices(cs)}
       last(k) == CHOOSE i \in Indices(cs) : k \in Keys(cs[i]) /\ \A j \in (i + 1)..Len(cs) : k \notin Keys(cs[j])
   IN PairsSorted({<<k, cs[last(k)][Lookup(cs[last(k)], k)][2]>> : k \in ks})
+ReverseRotate(q) == IF q = <<>> THEN q ELSE Tail(q) \o <<Head(q)>>
+MapOptionalFirstOnly(f(_), q) == IF q = <<>> THEN <<>> ELSE f(q[1])
+ArrayFromRangeAtLeast(n, q) == IF Len(q) >= n THEN Some(Prefix(q, n)) ELSE None
 AtOptionalOffByOne(q, i) == IF i >= 0 /\ i <= Len(q) /\ Len(q) > 0 THEN Some(q[MinOf(i + 1, Len(q))]) ELSE None
 =============================================================================
